@@ -327,6 +327,97 @@ Proof.
   intros c Hst HS. eapply good_chain_no_leak; eauto. apply init_inv; assumption.
 Qed.
 
+(* ------------------------------------------------------------------ fault-freedom relative to a predicate on messages *)
+Section OnMessages.
+Variable okm : M -> bool.
+Definition nodes_nofault_on (l : list cellT) : Prop := Forall (fun c => nofault_node_on okm (c_node c)) l.
+Definition pends_ok (l : list cellT) : Prop := Forall (pend_ok okm) l.
+
+Lemma pend_tail : forall (p : cellT) m ms a, pend_ok okm p -> c_st p = CSend (m :: ms) a ->
+  okm m = true /\ pend_ok okm (set_st p (CSend ms a)).
+Proof.
+  intros p m ms a Hp E. unfold pend_ok in *. rewrite E in Hp. simpl in Hp. apply andb_prop in Hp.
+  destruct Hp as [Hm Hms]. split; [exact Hm|]. simpl. exact Hms.
+Qed.
+
+Lemma no_afault_on_step : forall canc (l : list cellT) canc' k l',
+  lstep canc l canc' k l' -> nodes_nofault_on l -> no_afault l -> pends_ok l ->
+  no_afault l' /\ pends_ok l' /\ k = false.
+Proof.
+  intros canc l canc' k l' H. unfold nodes_nofault_on, no_afault, pends_ok. induction H; intros HN HA HP.
+  - inversion HN as [|? ? Hnp HN1]; subst. inversion HN1 as [|? ? Hnq HN2]; subst.
+    inversion HA as [|? ? Hap HA1]; subst. inversion HA1 as [|? ? Haq HA2]; subst.
+    inversion HP as [|? ? Hpp HP1]; subst. inversion HP1 as [|? ? Hpq HP2]; subst.
+    destruct (pend_tail _ _ _ _ Hpp H) as [Hm Hp'].
+    assert (Haq' : n_ok (c_node q) s = true) by (unfold cell_ok in Haq; rewrite H0 in Haq; exact Haq).
+    destruct Hnq as [Hnq _]. destruct (Hnq canc s m Haq' Hm) as [Hnx Hout].
+    split; [|split; [|reflexivity]].
+    + constructor; [|constructor; [|exact HA2]]; unfold cell_ok in *; simpl.
+      * rewrite H in Hap. destruct a; auto.
+      * destruct (rr_next (n_on_msg (c_node q) canc s m)); simpl; auto.
+    + constructor; [exact Hp'|constructor; [|exact HP2]]. unfold pend_ok. simpl. exact Hout.
+  - inversion HA as [|? ? Hap HA1]; subst. inversion HP as [|? ? Hpp HP1]; subst.
+    destruct (pend_tail _ _ _ _ Hpp H) as [_ Hp'].
+    split; [|split; [|reflexivity]]; constructor; try constructor; auto.
+    unfold cell_ok in *; simpl. rewrite H in Hap. destruct a; auto.
+  - inversion HA as [|? ? Hap HA1]; subst. inversion HP as [|? ? Hpp HP1]; subst.
+    destruct (pend_tail _ _ _ _ Hpp H) as [_ Hp'].
+    split; [|split; [|reflexivity]]; constructor; auto.
+    unfold cell_ok in *; simpl. rewrite H in Hap. destruct a; auto.
+  - inversion HN as [|? ? Hnp HN1]; subst. inversion HN1 as [|? ? Hnq HN2]; subst.
+    inversion HA as [|? ? Hap HA1]; subst. inversion HA1 as [|? ? Haq HA2]; subst.
+    inversion HP as [|? ? Hpp HP1]; subst. inversion HP1 as [|? ? Hpq HP2]; subst.
+    assert (Haq' : n_ok (c_node q) s = true) by (unfold cell_ok in Haq; rewrite H0 in Haq; exact Haq).
+    destruct Hnq as [_ Hnq]. destruct (Hnq canc s Haq') as [Hf Hout].
+    split; [|split; [|reflexivity]].
+    + constructor; [exact Hap|constructor; [|exact HA2]]. unfold cell_ok; simpl. rewrite Hf. exact I.
+    + constructor; [exact Hpp|constructor; [|exact HP2]]. unfold pend_ok. simpl. exact Hout.
+  - inversion HA as [|? ? Hap HA1]; subst. inversion HP as [|? ? Hpp HP1]; subst.
+    split; [|split; [|reflexivity]]; constructor; auto.
+    + unfold cell_ok in *; simpl. rewrite H in Hap. exact Hap.
+    + unfold pend_ok; simpl. exact I.
+  - inversion HA as [|? ? Hap HA1]; subst. inversion HP as [|? ? Hpp HP1]; subst.
+    split; [|split; [|reflexivity]]; constructor; auto.
+    + unfold cell_ok; simpl. exact I.
+    + unfold pend_ok; simpl. exact I.
+  - exfalso. inversion HA as [|? ? Hap HA1]; subst. unfold cell_ok in Hap. rewrite H in Hap. exact Hap.
+  - inversion HN as [|? ? Hnp HN1]; subst. inversion HA as [|? ? Hap HA1]; subst. inversion HP as [|? ? Hpp HP1]; subst.
+    destruct (IHlstep HN1 HA1 HP1) as [IH1 [IH2 IH3]]. split; [|split; [|exact IH3]]; constructor; auto.
+Qed.
+
+Lemma nofault_on_star : forall c c' : configT, star c c' ->
+  crashed c = false -> nodes_nofault_on (cells c) -> no_afault (cells c) -> pends_ok (cells c) ->
+  crashed c' = false.
+Proof.
+  intros c c' H. induction H as [c | c1 c2 c3 [Hc [Hs | [_ [_ [Hk2 Hcells]]]]] Hst IH]; intros Hk HN HA HP; [auto| |].
+  - destruct (no_afault_on_step _ _ _ _ _ Hs HN HA HP) as [HA' [HP' Hk']].
+    apply IH; auto. eapply (nodes_pred_step (fun n => nofault_node_on okm n)); eauto.
+  - apply IH; auto; rewrite Hcells; assumption.
+Qed.
+
+(* the generic theorem relative to acceptable messages: if the rows the database delivers are acceptable, every
+   schedule is finite, never crashes and can only end with every goroutine returned *)
+Theorem chain_terminates_on : forall (rows : list M) (stages : list cellT),
+  forallb okm rows = true ->
+  Forall (fun c => good_node (c_node c)) stages ->
+  Forall (fun c => nofault_node_on okm (c_node c)) stages ->
+  Forall fresh_stage stages -> Forall (pend_ok okm) stages ->
+  let c0 := init_config rows stages in
+  Acc (fun c' c : configT => step c c') c0 /\
+  forall c, star c0 c -> crashed c = false /\ (quiescent c -> all_done (cells c)).
+Proof.
+  intros rows stages Hrows HG HN HF HP c0. split; [apply step_wf|].
+  intros c Hst.
+  assert (Hk : crashed c = false).
+  { eapply nofault_on_star; eauto.
+    - constructor; [|exact HN]. simpl. split; intros; split; reflexivity.
+    - constructor; [exact I|]. eapply Forall_impl; [|exact HF]. intros a [_ Ha]. exact Ha.
+    - constructor; [|exact HP]. unfold pend_ok. simpl. exact Hrows. }
+  split; [exact Hk|]. intros HS.
+  destruct (good_chain_no_leak c0 c (init_inv rows stages HG HF) Hst HS) as [Hc|Hd]; [congruence|exact Hd].
+Qed.
+End OnMessages.
+
 (* a returned goroutine stays returned: its channel is closed exactly once *)
 Lemma done_stable : forall canc (l : list cellT) canc' k l',
   lstep canc l canc' k l' -> forall i c, nth_error l i = Some c -> closed_st (c_st c) = true -> nth_error l' i = Some c.
